@@ -142,3 +142,20 @@ Proof.
   cbv zeta. repeat split; try (vm_compute; reflexivity); try (right; left; reflexivity).
   all: repeat constructor; cbn [In]; intros H; repeat destruct H as [H | H]; try discriminate; exact H.
 Qed.
+
+(* The guard the theorems above rest on is in /repo's current declaration of `Reply` (coq/gen/Decls.v,
+   regenerated by translate/decls.py on every run): a member named `error`, of a type whose
+   Deserialize refuses every value, defaulted when absent and never written; and the declaration as
+   a whole reads as the guarded reply shape (Shapes/DeclTie.v). *)
+From ZV Require gen.Decls Shapes.DeclTie.
+
+Theorem C04_reply_declaration_has_error_guard :
+  (forall P : shape,
+     DeclTie.interp_struct P Decls.reply_derives Decls.reply_container_attrs Decls.reply_fields
+     = Some (reply_shape_guarded P))
+  /\ In ("error", "NoError", [("default", ""); ("skip_serializing", "")])%string Decls.reply_fields
+  /\ Decls.no_error_refuses_everything = true.
+Proof.
+  split; [exact DeclTie.reply_decl_tie | exact DeclTie.reply_decl_has_error_guard].
+Qed.
+Print Assumptions C04_reply_declaration_has_error_guard.
